@@ -5,6 +5,7 @@ import (
 	"math/rand"
 	"sort"
 	"strings"
+	"sync"
 	"time"
 
 	"bwverif/cv"
@@ -218,6 +219,13 @@ func c18Sentences(r *rt.Rec, rng *rand.Rand, n int) {
 		} else {
 			r.Count("unrealisable", 1)
 		}
+		// a whole statement followed by text the lexer cannot read (its token
+		// sequence continues with an ERROR token) or by one more token
+		if real && acc && i%3 == 0 {
+			tails := []string{"foo", "/u<c", `"abc`, "_x", `"1"^^type:zzz`, "?", "@", "\x00", `"p"@[`, "2016-01-01T00:00:00Z", ";", "select"}
+			c18Compare(r, g, plain, text+" "+tails[rng.Intn(len(tails))], nil, true)
+			r.Count("statements_with_unreadable_tail", 1)
+		}
 		// single-token mutations
 		for m := 0; m < 3; m++ {
 			mk := tokenMutate(rng, kinds)
@@ -395,11 +403,79 @@ func c18Stateless(r *rt.Rec, rng *rand.Rand, rounds int) {
 	}
 }
 
+// c18Parallel: several goroutines, each with a parser of its own, parse the
+// target statements at the same time; accept/reject and the meaning fingerprint
+// of every statement must be what a fresh parser gives when nothing else runs.
+func c18Parallel(r *rt.Rec, rng *rand.Rand, rounds int) {
+	targets := c18Targets(rng)
+	type base struct {
+		ok bool
+		fp string
+	}
+	fresh := make([]base, len(targets))
+	for i, t := range targets {
+		st := &semantic.Statement{}
+		err := newSemantic().Parse(grammar.NewLLk(t, 1), st)
+		fresh[i] = base{err == nil, fingerprint(st)}
+	}
+	const workers = 8
+	for round := 0; round < rounds; round++ {
+		r.Note(fmt.Sprintf("parallel parsers round %d", round))
+		order := make([][]int, workers)
+		for w := range order {
+			for k := 0; k < 30; k++ {
+				order[w] = append(order[w], rng.Intn(len(targets)))
+			}
+		}
+		var wg sync.WaitGroup
+		var mu sync.Mutex
+		type bad struct {
+			t, what string
+		}
+		var bads []bad
+		start := make(chan struct{})
+		for w := 0; w < workers; w++ {
+			wg.Add(1)
+			go func(w int) {
+				defer wg.Done()
+				p := newSemantic()
+				<-start
+				for _, ti := range order[w] {
+					if w%2 == 1 {
+						p = newSemantic() // every other worker takes a new parser per statement
+					}
+					st := &semantic.Statement{}
+					err := p.Parse(grammar.NewLLk(targets[ti], 1), st)
+					what := ""
+					if (err == nil) != fresh[ti].ok {
+						what = fmt.Sprintf("accepted alone=%v, in parallel err=%v", fresh[ti].ok, err)
+					} else if err == nil && fingerprint(st) != fresh[ti].fp {
+						what = "meaning differs: alone " + fresh[ti].fp + " | in parallel " + fingerprint(st)
+					}
+					if what != "" {
+						mu.Lock()
+						bads = append(bads, bad{targets[ti], what})
+						mu.Unlock()
+						return
+					}
+				}
+			}(w)
+		}
+		close(start)
+		wg.Wait()
+		r.Eval(workers * 30)
+		for _, b := range bads {
+			r.Violation("parallel-parsers/"+strings.Fields(b.t)[0], "a statement parsed while other parsers (each with its own Parser and grammar) were parsing was accepted / understood differently than when parsed alone", map[string]string{"statement": b.t, "difference": trim(b.what, 600)})
+		}
+		r.Nontrivial(fmt.Sprintf("parallel|%d|%v", round, order[0][:5]))
+	}
+}
+
 func init() {
 	register(&rt.Check{
 		ID:    "C18",
 		Level: "exploration",
-		Rule: "(a) sentences derived at random from the exported grammar table, (b) their single-token mutations (delete, insert, replace, swap, extra tokens after the final ';'), (c) every token sequence up to length L over the 55 token kinds (L=3 quick, 4 thorough; complete), rendered to text and judged on the kinds the real lexer returns (sequences the lexer cannot produce are skipped as unrealisable); (d) target statements of all eight kinds (hand-written ones incl. lists that repeat a name, and 40 generated ones per shard) parsed on a reused Parser after 1-4 earlier statements (accepted, truncated at every token position, token-replaced); " +
+		Rule: "(a) sentences derived at random from the exported grammar table, (b) their single-token mutations (delete, insert, replace, swap, extra tokens after the final ';'), (c) every token sequence up to length L over the 55 token kinds (L=3 quick, 4 thorough; complete), rendered to text and judged on the kinds the real lexer returns (sequences the lexer cannot produce are skipped as unrealisable); (a2) accepted sentences followed by a tail the lexer cannot read; (e) eight goroutines, each with its own parser (reused or fresh per statement), parsing the targets at the same time, also under -race; (d) target statements of all eight kinds (hand-written ones incl. lists that repeat a name, and 40 generated ones per shard) parsed on a reused Parser after 1-4 earlier statements (accepted, truncated at every token position, token-replaced); " +
 			"oracle: an independent table interpreter with explicit end-of-input for accept/reject, SemanticBQL accepts => BQL accepts and derivable, and an accessor-level meaning fingerprint equal to that on a fresh parser; non-trivial = accepted or rejected after >=3 tokens; (d) an earlier statement was rejected inside a clause; distinct by kind sequence / history",
 		Assume: []string{"the reference recogniser uses the same greedy predictive choice the property describes", "fingerprint covers every exported accessor of semantic.Statement"},
 		Floor:  2000,
@@ -413,6 +489,8 @@ func init() {
 				{Name: "sentences", N: 16, Run: func(i int, r *rt.Rec) { c18Sentences(r, gen.Rng(seed, "c18s", i), sent/16) }},
 				{Name: "enumerate", N: len(kinds), Exhaustive: true, Run: func(i int, r *rt.Rec) { c18Enumerate(r, kinds[i], maxLen) }},
 				{Name: "stateless", N: 16, Run: func(i int, r *rt.Rec) { c18Stateless(r, gen.Rng(seed, "c18d", i), rounds/16) }},
+				{Name: "parallel-parsers", N: 8, Procs: 16, Run: func(i int, r *rt.Rec) { c18Parallel(r, gen.Rng(seed, "c18p", i), rounds/2000) }},
+				{Name: "parallel-parsers-race", N: 4, Race: true, Procs: 16, Run: func(i int, r *rt.Rec) { c18Parallel(r, gen.Rng(seed, "c18pr", i), rounds/10000) }},
 			}
 		},
 	})
